@@ -373,6 +373,25 @@ package dnsserver
 //@   modifies heap, served, servedReq, servedRW, servedErr, writes, wroteReq, wroteResp, wroteId, wroteRcode, wroteNQ, wroteQ, truncSize, disposed, holders[msgSema]
 //@   ensures slot-released-exactly-once: holders[msgSema] == old(holders[msgSema]) - 1
 
+// C18: the writer of a TCP/TLS response is one of the ResponseWriters the
+// server hands to handlers, so it keeps to what their callers assume of every
+// writer: it writes, and does nothing else - in particular it leaves the
+// connection's pipeline slots alone (a slot is given back exactly once, by the
+// worker that took the query, see acceptTCPMsg$1).
+// (setting a deadline on a connection and writing to it are effects on the
+// network only)
+//@ interface writeDeadlineSetter method SetWriteDeadline
+//@   modifies nothing
+//@ func (*tcpResponseWriter).WriteMsg
+//@   property C18
+//@   requires r != nil && r.respPool != nil && r.writeMu != nil && r.conn != nil && req != nil && resp != nil
+//@   requires forall i int :: 0 <= i && i < len(req.Extra) && isOPT(req.Extra[i]) ==> ref(req.Extra[i]) != 0 && optsValid(optAt(req, i))
+//@   requires forall i int :: 0 <= i && i < len(resp.Extra) && isOPT(resp.Extra[i]) ==> ref(resp.Extra[i]) != 0 && optsValid(optAt(resp, i))
+// (normalisation keeps the OPT records well-formed: C08's subject, assumed here)
+//@   atcall addTCPKeepAlive assume normalisation-keeps-the-options-well-formed: (forall i int :: 0 <= i && i < len(req.Extra) && isOPT(req.Extra[i]) ==> ref(req.Extra[i]) != 0 && optsValid(optAt(req, i))) && (forall i int :: 0 <= i && i < len(resp.Extra) && isOPT(resp.Extra[i]) ==> ref(resp.Extra[i]) != 0 && optsValid(optAt(resp, i)))
+//@   modifies heap, truncSize, pk, pkLen, lent, stamped
+//@   ensures a-writer-leaves-the-pipeline-slots-alone: forall m syncutil.Semaphore :: holders[m] == old(holders[m])
+
 //@ func (*ServerDNS).serveTCPMessage
 //@   property C01 C06
 //@   requires SD(s) && conn != nil && wg != nil && writeMu != nil
